@@ -476,3 +476,39 @@ def best_never_displaced_structurally(ctx):
         ctx.need(n_st > 0, 'no %s stores in the update phase' % arr)
         ctx.check(bad is None, 'NelderMeadSimplexSolver._Step#update-%s' % arr, '%d stores, none to slot 0' % n_st,
                   'the update phase overwrites the best vertex/energy: %s' % (norm_stmt(bad) if bad is not None else ''), f, bad if bad is not None else update[0])
+
+
+@rule('C01.h', min_instances=4)
+def members_rewritten_with_their_energies(ctx):
+    """a _decorate_objective that rewrites member vectors after generation 0 (clipping into new ranges, rebuilding the simplex) must refresh their stored energies; otherwise (point, energy) pairs go stale"""
+    for key, anchor in D.DECORATORS.items():
+        f = ctx.func(anchor)
+        sn = selfname_of(f)
+        stores = []
+        for st in stmts_of(f.node):
+            if isinstance(st, ast.Assign):
+                for tg in store_targets(st):
+                    b = tg
+                    while isinstance(b, ast.Subscript):
+                        b = b.value
+                    if is_self_attr(b, 'population', sn) and b is not tg:
+                        stores.append(st)
+        construct = '%s._decorate_objective#members' % f.cls.name
+        if not stores:
+            ctx.ok(construct, 'does not rewrite members', f, f.node)
+            continue
+        late = []
+        for st in stores:
+            gs = guards_of(st, stop=f.node)
+            gen0 = any((''.join(unparse(g[0]).split()) in ('%s.generations' % sn, 'ngen') and g[1] is False) or
+                       (''.join(unparse(g[0]).split()) in ('not%s.generations' % sn, 'notngen') and g[1] is True) for g in gs)
+            if not gen0:
+                late.append(st)
+        refreshed = any(isinstance(st, (ast.Assign, ast.AugAssign)) and any(
+            is_self_attr(b_, 'popEnergy', sn) for tg in store_targets(st) for b_ in ast.walk(tg)) for st in stmts_of(f.node))
+        if late and not refreshed:
+            ctx.bad(construct, 'when the objective is re-decorated after generation 0 (ranges installed/changed mid-run) member vectors are rewritten '
+                    '(%s) but their stored energies are kept: the stored energy is no longer the objective at that member' % norm_stmt(late[0])[:80],
+                    f, late[0], statement='members rewritten without refreshing popEnergy')
+        else:
+            ctx.ok(construct, 'members rewritten only at generation 0 or together with their energies', f, stores[0])
